@@ -1,5 +1,6 @@
 import Proofs.CrashRun
 import Proofs.CrashBatch
+import Proofs.CrashData
 import Proofs.CrashCache
 import Model.CacheTree
 import Spec.C01
@@ -186,6 +187,19 @@ theorem C04_blocks_are_their_batches (c : Cfg) (hpos : 1 ≤ c.initialHeight) (o
     exact hs.mono h h' h1 h2 (by rw [hb]; simp)
   · obtain ⟨txs, bd, e, hop, htx⟩ := (hs.image k).1 h b h1 hb
     exact ⟨txs, b.sh.hdr.time, bd, e, hop, htx, rfl⟩
+
+/-- **The data chain survives every history**: after any steps, restarts and crashes, every committed block of the
+running node carries metadata that repeats its header's chain id, height and time and names the hash of the previous
+block's data — also a block that was recovered after a crash between the early and the final save, or between the
+final save and the state, and committed through "using pending block"; and the same holds in **every crash image** of
+the last operation up to where the image counts as committed (its chain height, or the saved state's height in the
+window between `updateState` and `setHeight`). -/
+theorem C04_data_links (c : Cfg) (hpos : 1 ≤ c.initialHeight) (ops : List Op) :
+    ∃ σ, runOps c (initSt c) ops = .ok σ ∧
+      Spec.C01.DataChain c σ.node.store σ.node.store.height ∧
+      ∀ k, Spec.C01.DataChain c (σ.base.applyPrefix k σ.ws) (topOf (σ.base.applyPrefix k σ.ws)) := by
+  obtain ⟨σ, hr, hg, hc⟩ := runOps_dataCuts (good_init c hpos) (dataCuts_init c hpos) ops
+  exact ⟨σ, hr, hc.node hg, hc⟩
 
 /-- after **any** history production resumes: one well-formed answer commits the next block (whether or not a block
 is waiting at `height + 1`) -/
